@@ -1,2 +1,245 @@
-/-! line-protocol driver of the Str family (placeholder until the family is built) -/
-def main : IO Unit := pure ()
+import BumpVerif.Model.Str
+import BumpVerif.Model.Lossy
+/-!
+Line-protocol driver of the `str` family: reads the trace of `bvh_str` on stdin, replays every
+operation on the model (`Bump.Str`), and prints a `DIFF` line for every field (`res`, `bytes`,
+`len`, `capge`) in which model and implementation disagree.
+-/
+open Bump Bump.Str
+
+def hexDigitS (n : Nat) : Char := "0123456789abcdef".toList.getD n '0'
+
+def hexValS (c : Char) : Option Nat :=
+  if '0' ≤ c ∧ c ≤ '9' then some (c.toNat - '0'.toNat)
+  else if 'a' ≤ c ∧ c ≤ 'f' then some (c.toNat - 'a'.toNat + 10)
+  else none
+
+def parseHexNat (s : String) : Option Nat :=
+  if s.isEmpty then none else
+  s.toList.foldl (fun acc c => match acc, hexValS c with
+    | some a, some d => some (a * 16 + d)
+    | _, _ => none) (some 0)
+
+partial def natToHexAux (n : Nat) (acc : List Char) : List Char :=
+  if n < 16 then hexDigitS n :: acc else natToHexAux (n / 16) (hexDigitS (n % 16) :: acc)
+
+def natToHex (n : Nat) : String := String.ofList (natToHexAux n [])
+
+def bytesHex (b : Bytes) : String :=
+  if b.isEmpty then "-" else
+  String.ofList (b.flatMap fun x => [hexDigitS (x.toNat / 16), hexDigitS (x.toNat % 16)])
+
+def parseBytesAux : List Char → List UInt8 → Option (List UInt8)
+  | [], acc => some acc.reverse
+  | [_], _ => none
+  | a :: b :: t, acc =>
+    match hexValS a, hexValS b with
+    | some x, some y => parseBytesAux t (UInt8.ofNat (x * 16 + y) :: acc)
+    | _, _ => none
+
+def parseBytes (s : String) : Option Bytes :=
+  if s == "-" then some [] else parseBytesAux s.toList []
+
+def cpsStr (cs : List Char) : String :=
+  if cs.isEmpty then "-" else ",".intercalate (cs.map fun c => natToHex c.toNat)
+
+def parseCps (s : String) : Option (List Char) :=
+  if s == "-" then some [] else
+  (s.splitOn ",").mapM fun x => (parseHexNat x).map Char.ofNat
+
+def parseBits (s : String) : List Bool :=
+  if s == "-" then [] else s.toList.map (· == '1')
+
+def parseTexts (s : String) : Option (List Bytes) :=
+  if s == "none" then some [] else (s.splitOn "+").mapM parseBytes
+
+def parseU16s (s : String) : Option (List Nat) :=
+  if s == "-" then some [] else (s.splitOn ",").mapM parseHexNat
+
+def kvS (toks : List String) (key : String) : Option String :=
+  toks.findSome? fun t =>
+    if t.startsWith (key ++ "=") then some (t.drop (key.length + 1)).toString else none
+
+def kvNatS (toks : List String) (key : String) : Option Nat := (kvS toks key).bind (·.toNat?)
+
+def parseBd (s : String) : Option Bd :=
+  if s == "u" then some .unbounded else
+  match s.splitOn ":" with
+  | [k, n] =>
+    match n.toNat? with
+    | some n => if k == "i" then some (.incl n) else if k == "e" then some (.excl n) else none
+    | none => none
+  | _ => none
+
+def strBytes (s : String) : Bytes := s.toUTF8.toList
+
+structure DSt where
+  planIdx : Nat := 0
+  lineNo : Nat := 0
+  ovf : Bool := true
+  dbg : Bool := true
+  cur : Option Bytes := none
+  lines : Nat := 0
+  diffs : Nat := 0
+  kinds : List (String × Nat) := []
+
+def bumpKind (ks : List (String × Nat)) (k : String) : List (String × Nat) :=
+  match ks with
+  | [] => [(k, 1)]
+  | (k', n) :: t => if k' == k then (k', n + 1) :: t else (k', n) :: bumpKind t k
+
+/-- model result of one operation: RES text and the next state; `none` = unparsable -/
+def runOp (st : DSt) (toks : List String) : Option (String × Option Bytes) := do
+  let name ← toks.head?
+  let outc {α} (o : Outcome α) (f : α → String × Option Bytes) : String × Option Bytes :=
+    match o with
+    | .ok a => f a
+    | .err => ("err", st.cur)
+    | .panic => ("panic", st.cur)
+    | .bad w => (s!"bad:{w}", st.cur)
+    | .envBad => ("envbad", st.cur)
+  -- constructors and stateless operations first
+  match name with
+  | "s_new" => return ("unit", some [])
+  | "s_with_cap" => return ("unit", some [])
+  | "s_from_str" => let t ← (kvS toks "t").bind parseBytes; return ("unit", some t)
+  | "s_from_iter" => let cs ← (kvS toks "cs").bind parseCps; return ("unit", some (fromIter cs))
+  | "d_lossy" =>
+    let b ← (kvS toks "b").bind parseBytes
+    return (outc (fromUtf8Lossy st.dbg b) fun r => (s!"ok:{bytesHex r}", st.cur))
+  | "d_utf8" =>
+    let b ← (kvS toks "b").bind parseBytes
+    return (match fromUtf8 b with
+      | .ok r => (s!"ok:{bytesHex r}", st.cur)
+      | .err => (s!"err:{validUpTo b}", st.cur)
+      | _ => ("bad", st.cur))
+  | "d_utf16" =>
+    let u ← (kvS toks "u").bind parseU16s
+    return (outc (fromUtf16 u) fun r => (s!"ok:{bytesHex r}", st.cur))
+  | _ =>
+  match st.cur with
+  | none => return ("nostate", none)
+  | some s =>
+  match name with
+  | "s_push" => let c ← (kvS toks "c").bind parseHexNat; return ("unit", some (push s (Char.ofNat c)))
+  | "s_push_str" => let t ← (kvS toks "t").bind parseBytes; return ("unit", some (pushStr s t))
+  | "s_pop" =>
+    return (outc (pop s) fun (s', r) =>
+      (match r with | some c => s!"some:{natToHex c.toNat}" | none => "none", some s'))
+  | "s_insert" =>
+    let i ← kvNatS toks "i"; let c ← (kvS toks "c").bind parseHexNat
+    return (outc (insert s i (Char.ofNat c)) fun s' => ("unit", some s'))
+  | "s_insert_str" =>
+    let i ← kvNatS toks "i"; let t ← (kvS toks "t").bind parseBytes
+    return (outc (insertStr s i t) fun s' => ("unit", some s'))
+  | "s_remove" =>
+    let i ← kvNatS toks "i"
+    return (outc (remove s i) fun (s', c) => (s!"ch:{natToHex c.toNat}", some s'))
+  | "s_truncate" =>
+    let n ← kvNatS toks "n"
+    return (outc (truncate s n) fun s' => ("unit", some s'))
+  | "s_clear" => return ("unit", some (clear s))
+  | "s_retain" =>
+    let ans := parseBits (← kvS toks "ans")
+    let p ← kvS toks "panic"
+    let panicAt := if p == "none" then none else p.toNat?
+    return (outc (retain s (ansOf ans) panicAt) fun r =>
+      ((if r.panicked then "panic" else "unit") ++ s!" calls={r.calls}", some r.bytes))
+  | "s_drain" =>
+    let sb ← (kvS toks "sb").bind parseBd; let eb ← (kvS toks "eb").bind parseBd
+    let take ← kvNatS toks "take"; let back ← kvNatS toks "back"
+    let forget := (kvS toks "forget") == some "1"
+    return (outc (drain st.ovf s sb eb take back forget) fun r =>
+      (s!"yield={cpsStr r.front} yback={cpsStr r.back}", some r.bytes))
+  | "s_replace_range" =>
+    let sb ← (kvS toks "sb").bind parseBd; let eb ← (kvS toks "eb").bind parseBd
+    let t ← (kvS toks "t").bind parseBytes
+    return (outc (replaceRange st.ovf s sb eb t) fun s' => ("unit", some s'))
+  | "s_split_off" =>
+    let at_ ← kvNatS toks "at"
+    let swap := (kvS toks "swap") == some "1"
+    return (outc (splitOff s at_) fun (s', o) => (s!"other={bytesHex o}", some (if swap then o else s')))
+  | "s_extend_chars" => let cs ← (kvS toks "cs").bind parseCps; return ("unit", some (extendChars s cs))
+  | "s_extend_strs" => let ts ← (kvS toks "ts").bind parseTexts; return ("unit", some (extendStrs s ts))
+  | "s_clone" => return (s!"clone={bytesHex (clone s)}", some s)
+  | "s_write" =>
+    let t ← (kvS toks "t").bind parseBytes; let v ← (kvS toks "v").bind (·.toInt?)
+    return ("unit", some (pushStr s (t ++ strBytes (toString v))))
+  | "s_format" =>
+    let t ← (kvS toks "t").bind parseBytes; let v ← (kvS toks "v").bind (·.toInt?)
+    return (s!"text={bytesHex (pushStr (pushStr (pushStr [] t) (strBytes "|")) (strBytes (toString v)))}", some s)
+  | "s_into_bump_str" => return (s!"str={bytesHex (intoBumpStr s)}", none)
+  | "s_reserve" =>
+    let n ← kvNatS toks "n"
+    -- RawVec::reserve: `capacity overflow` when `len + n` exceeds `isize::MAX`
+    return (if s.length + n > ISIZE_MAX then ("panic", some s) else ("unit", some s))
+  | "s_shrink" => return ("unit", some s)
+  | _ => none
+
+def obsStr : Option Bytes → String
+  | none => "none"
+  | some b => s!"bytes={bytesHex b} len={b.length} capge=1"
+
+def processLine (st : DSt) (line : String) : DSt × List String :=
+  let st := { st with lineNo := st.lineNo + 1 }
+  let line := line.trimAscii.toString
+  if line.isEmpty || line.startsWith "#" || line.startsWith "END" || line.startsWith "ORACLE" || line.startsWith "SUMMARY" then (st, [])
+  else if line.startsWith "PLAN" then
+    let toks := line.splitOn " "
+    ({ st with planIdx := (kvNatS toks "idx").getD 0, ovf := (kvS toks "ovf") != some "0",
+               dbg := (kvS toks "dbg") != some "0", cur := none }, [])
+  else
+    let secs := line.splitOn " | "
+    let opToks := (secs.headD "").splitOn " "
+    let name := opToks.headD "?"
+    let sec := fun (tag : String) =>
+      match secs.find? (·.startsWith (tag ++ " ")) with
+      | some s => (s.drop (tag.length + 1)).toString
+      | none => ""
+    let iRes := sec "RES"
+    let iObs := sec "OBS"
+    let mk := fun (field m i : String) => s!"DIFF plan={st.planIdx} line={st.lineNo} op={name} field={field} model={m} impl={i}"
+    match runOp st opToks with
+    | none => ({ st with diffs := st.diffs + 1, lines := st.lines + 1 }, [mk "parse" "unparsable" "-"])
+    | some (mRes, next) =>
+      let isDec := name.startsWith "d_"
+      -- `d_utf8` errors: the implementation also prints `error_len`, which is not modelled
+      let iResCmp := if name == "d_utf8" && iRes.startsWith "err:" then
+          ":".intercalate ((iRes.splitOn ":").take 2) else iRes
+      let d1 := if mRes != iResCmp then [mk "res" mRes iRes] else []
+      let d2 : List String :=
+        if isDec then [] else
+        let obsToks := iObs.splitOn " "
+        match next with
+        | none => if iObs != "none" then [mk "bytes" "none" iObs] else []
+        | some b =>
+          if iObs == "none" then [mk "bytes" (bytesHex b) "none"] else
+          let cmp := fun (field m : String) =>
+            let i := (kvS obsToks field).getD "?"
+            if m != i then [mk field m i] else []
+          cmp "bytes" (bytesHex b) ++ cmp "len" (toString b.length) ++ cmp "capge" "1"
+      let ds := d1 ++ d2
+      -- continue from the implementation's state when anything differed; a string that is
+      -- not UTF-8 is never used again (the harness drops it as well)
+      let next' : Option Bytes :=
+        if isDec then st.cur
+        else if ds.isEmpty then next
+        else if iObs == "none" then none
+        else (kvS (iObs.splitOn " ") "bytes").bind parseBytes
+      let next' := match next' with
+        | some b => if validate b then some b else none
+        | none => none
+      let kind := name ++ ":" ++ ((mRes.splitOn " ").headD "" |>.splitOn ":" |>.headD "" |>.splitOn "=" |>.headD "")
+      ({ st with cur := next', lines := st.lines + 1, diffs := st.diffs + ds.length, kinds := bumpKind st.kinds kind }, ds)
+
+partial def loopS (h : IO.FS.Stream) (st : DSt) : IO DSt := do
+  let line ← h.getLine
+  if line.isEmpty then return st
+  let (st', outs) := processLine st line
+  for o in outs do IO.println o
+  loopS h st'
+
+def main : IO Unit := do
+  let st ← loopS (← IO.getStdin) {}
+  let ks := ",".intercalate (st.kinds.map fun (k, n) => s!"{k}={n}")
+  IO.println s!"DRIVER lines={st.lines} diffs={st.diffs} kinds={ks}"
